@@ -228,11 +228,16 @@ Definition inv_safe (watched : list path) (I : list astate) : bool := forallb (a
 Definition inv_noraise (proto : list op) (I : list astate) : bool := forallb (aok proto) I.
 
 (* the model checker: one boolean per protocol *)
+Definition check_safe_inv (proto : list op) (npaths : nat) (watched : list path) (I : list astate) : bool :=
+  inv_closed proto npaths I && inv_safe watched I.
+Definition check_noraise_inv (proto : list op) (npaths : nat) (I : list astate) : bool :=
+  inv_closed proto npaths I && inv_noraise proto I.
+
 Definition check_safe (proto : list op) (npaths : nat) (watched : list path) : bool :=
-  let I := reach proto npaths in inv_closed proto npaths I && inv_safe watched I.
+  check_safe_inv proto npaths watched (reach proto npaths).
 
 Definition check_noraise (proto : list op) (npaths : nat) : bool :=
-  let I := reach proto npaths in inv_closed proto npaths I && inv_noraise proto I.
+  check_noraise_inv proto npaths (reach proto npaths).
 
 (* ------------------------------------------------------------------ search for a failing history
    (used by the harness when check_safe is false; concrete model, bounded) *)
@@ -264,3 +269,36 @@ Definition cell_code (c : cell) : Z :=
 Definition attempt_code (a : attempt) : Z :=
   match a with None => (-1)%Z | Some c => Z.of_nat c end.
 Definition decode_attempt (z : Z) : attempt := if (z <? 0)%Z then None else Some (Z.to_nat z).
+
+(* ------------------------------------------------------------------ serialisation keys
+   (Gen/DumpKeys.v lists, per object kind, the key families the dumper writes and the loader reads) *)
+From Coq Require Import String.
+
+Inductive fam :=
+| FConst (name : string)                 (* one key *)
+| FIdx (prefix : string) (off : nat).    (* prefix_0 ... prefix_{n+off-1}, n = number of sites / nodes *)
+
+Inductive key := KConst (name : string) | KIdx (prefix : string) (i : nat).
+
+Definition expand (n : nat) (f : fam) : list key :=
+  match f with
+  | FConst s => [KConst s]
+  | FIdx p off => map (KIdx p) (seq 0 (n + off))
+  end.
+
+Definition keys (n : nat) (fs : list fam) : list key := flat_map (expand n) fs.
+
+Definition fam_covered (ws : list fam) (r : fam) : bool :=
+  match r with
+  | FConst s => existsb (fun w => match w with FConst s' => String.eqb s s' | _ => false end) ws
+  | FIdx p off => existsb (fun w => match w with FIdx p' off' => String.eqb p p' && Nat.leb off off' | _ => false end) ws
+  end.
+
+Definition covers (ws rs : list fam) : bool := forallb (fam_covered ws) rs.
+
+(* a kind is fine when the loader accepts the written version and reads only written keys *)
+Definition kind_ok (k : string * string * list fam * option (list fam)) : bool :=
+  match snd k with
+  | Some rs => covers (snd (fst k)) rs
+  | None => false
+  end.
